@@ -92,7 +92,7 @@ def to_xml(root: N, pretty=False) -> str:
 
 
 # ------------------------------------------------------------------------------------------------------------------
-FRAME_RATES = [(24, None), (25, None), (30, None), (50, None), (60, None), (30, "1000 1001"), (24, "1000 1001")]
+FRAME_RATES = [(24, None), (25, None), (30, None), (50, None), (60, None), (30, "1000 1001"), (24, "1000 1001"), (120, None), (240, None), (120, "1000 1001")]
 TICK_RATES = [1, 1000, 90000, 10000000]
 
 ALL_Q = sorted(R.VALUES)
@@ -172,7 +172,9 @@ class Gen:
     if f == "clock-fraction":
       return "00:00:%02d.%s" % (sec, rng.choice(["5", "25", "500", "040", "001", "999", "3333", "0", "75"]))
     if f == "clock-frames":
-      return "00:00:%02d:%02d" % (sec, rng.randrange(0, self.env.nominal))
+      # (the frames field has two digits or more: at 120 / 240 fps the upper part of the range has three)
+      nom = self.env.nominal
+      return "00:00:%02d:%02d" % (sec, rng.randrange(0, nom) if nom <= 100 or rng.random() < 0.4 else rng.randrange(100, nom))
     if f == "s":
       return rng.choice(["%ds" % sec, "%d.5s" % sec, "%d.25s" % sec, "0.%ds" % rng.randrange(1, 10), "%d.040s" % sec, "%d.0s" % sec,
                          "%d.123456789s" % sec, "%d.0000001s" % sec])
